@@ -156,4 +156,20 @@ PROPS = {
         trusted_base=COMMON_TRUST + ["derive macros of std"],
         assumptions=[],
     ),
+
+    "C15": dict(
+        tables=[],
+        determined=True,
+        technique="Lean 4 theorem by mutual structural induction: unordered_eq (greedy one-to-one matching) is sound w.r.t. an inductive 'equal up to permutation of entries at any depth' relation, and reflexive; exhaustive pairs of small duplicate-carrying objects against the model and a sorted-normal-form reference",
+        level_text=("PARTIAL proof (after the fix: commit that makes the matching one-to-one). Proved in Lean for all values: soundness — whenever unordered_eq holds, the two values are related by PermEq, the inductive relation "
+                    "'scalars equal, arrays pointwise in order, objects a one-to-one permutation of entries with equal keys and related values' (multiplicities count) — and unordered_eq is implied by ordinary equality; "
+                    "kernel-checked regressions for the repaired defect ({k:1,k:1,k:2} vs {k:1,k:2,k:2}). The converse (completeness of the greedy matching; needs that the relation is an equivalence one level down) and the "
+                    "equivalence-relation clause are stated (C15_full) but not yet proved; they are covered by comparing the real result with the model and with an independent reference (equality of recursively sorted normal forms) "
+                    "on all pairs of equal-size objects with <= 3 (thorough 4) entries over 2 keys x 3 values incl. a nested duplicate-carrying object, and on generated values with deep random shuffles (must be equal) and single-leaf mutations (must differ); symmetry and reflexivity are checked on every pair."),
+        level_note="Trusted: Lean kernel; model validated by correspondence; sorted-normal-form reference in harness/src/ueq.rs; get_entries_with_index = ascending positions of the key (C06).",
+        rule="request = pair of values; reply = unordered_eq. Non-trivial = values differ structurally; distinct request lines. distribution.equal_but_reordered counts accepted pairs that are not ==",
+        strength="partial: soundness proved; completeness tested exhaustively on small objects",
+        trusted_base=COMMON_TRUST + ["harness normal-form reference"],
+        assumptions=[],
+    ),
 }
